@@ -100,11 +100,13 @@ func checkC11(c *core.Check) {
 		byGlobal[k] = append(byGlobal[k], s)
 	}
 	sort.Strings(gkeys)
-	type kinds struct{ b, c, a string }
+	type kinds struct{ b, c, a, spell string }
 	// (third set: no http bearer scheme at all, scheme A is an apiKey that travels in the Authorization header)
-	kindSets := []kinds{{"apiKeyHeader", "basic", "bearer"}, {"apiKeyQuery", "oauth2", "bearer"}, {"apiKeyQuery", "apiKeyCookie", "apiKeyHeader"}}
+	kindSets := []kinds{{b: "apiKeyHeader", c: "basic", a: "bearer"}, {b: "apiKeyQuery", c: "oauth2", a: "bearer"}, {b: "apiKeyQuery", c: "apiKeyCookie", a: "apiKeyHeader"},
+		// (the bearer scheme spelled as the IANA registry spells it: auth scheme names are case-insensitive)
+		{b: "apiKeyHeader", c: "oauth2", a: "bearer", spell: "Bearer"}}
 	if thorough {
-		kindSets = append(kindSets, kinds{"apiKeyHeader", "openIdConnect", "bearer"}, kinds{"apiKeyQuery", "apiKeyCookie", "bearer"}, kinds{"apiKeyHeader", "basic", "apiKeyHeader"})
+		kindSets = append(kindSets, kinds{b: "apiKeyHeader", c: "openIdConnect", a: "bearer"}, kinds{b: "apiKeyQuery", c: "apiKeyCookie", a: "bearer"}, kinds{b: "apiKeyHeader", c: "basic", a: "apiKeyHeader"})
 	}
 	rng := rand.New(rand.NewSource(c.Seed))
 	specs := map[string]*aspec.ASpec{}
@@ -119,7 +121,7 @@ func checkC11(c *core.Check) {
 			a := &aspec.ASpec{Base: aspec.Base{Form: "servers", Segs: []string{"v1"}}, SpecName: "openapi.yaml",
 				// every other package is generated with CORS on (synthetic preflight entries next to the operations)
 				Flags: aspec.Flags{APIHandler: true, DoNotEdit: true, Cors: (gi+ki)%2 == 0}, Security: toSec(list[0].Global),
-				Schemes: []aspec.Scheme{{Key: "A", Kind: ks.a, Name: map[string]string{"apiKeyHeader": "Authorization"}[ks.a]}, {Key: "B", Kind: ks.b, Name: map[string]string{"apiKeyHeader": "X-Key-B", "apiKeyQuery": "kb"}[ks.b]}, {Key: "C", Kind: ks.c, Name: "kc"}}}
+				Schemes: []aspec.Scheme{{Key: "A", Kind: ks.a, Name: map[string]string{"apiKeyHeader": "Authorization"}[ks.a], Spell: ks.spell}, {Key: "B", Kind: ks.b, Name: map[string]string{"apiKeyHeader": "X-Key-B", "apiKeyQuery": "kb"}[ks.b]}, {Key: "C", Kind: ks.c, Name: "kc"}}}
 			type opRef struct{ method, path string }
 			var ops []opRef
 			for i, s := range list {
